@@ -5,6 +5,7 @@ import (
 
 	"github.com/safing/portbase/database/iterator"
 	"github.com/safing/portbase/database/query"
+	"github.com/safing/portbase/database/record"
 	"github.com/safing/portbase/database/storage"
 	"github.com/safing/portbase/database/storage/hashmap"
 )
@@ -12,6 +13,27 @@ import (
 // faultAfter: the simfault storage ends every query with an error after
 // faultAfter-1 records (0 = no fault).
 var faultAfter int
+
+// faultGetIn: when > 0, the faultGetIn-th Get call from now on fails with an injected storage error
+// (armed by the harness around one operation, then cleared).
+var faultGetIn int
+
+// faultGetFired counts the injected Get failures.
+var faultGetFired int
+
+var errInjected = errors.New("injected storage error")
+
+// Get forwards to the inner storage unless a failure is armed.
+func (f *faultStorage) Get(key string) (record.Record, error) {
+	if faultGetIn > 0 {
+		faultGetIn--
+		if faultGetIn == 0 {
+			faultGetFired++
+			return nil, errInjected
+		}
+	}
+	return f.Interface.Get(key)
+}
 
 type faultStorage struct {
 	storage.Interface
